@@ -43,7 +43,7 @@ Inductive req :=
 | RMode (rid u : N) (h : bool)
 | RName (rid u : N) (nm : list N)
 | RInfo (rid u : N)
-| RPatch (rid u : N)
+| ROpq (rid kd u : N)                                 (* every other request kind of the client API: opaque *)
 | RAck.                                              (* reply to a server push; no effect *)
 
 (* server -> client messages *)
@@ -295,6 +295,20 @@ Definition new_uni (sv : server) (u : N) : univ :=
                   end in
   {| u_id := u; u_htp := h; u_name := nm; u_buf := []; u_aprio := SOURCE_PRIORITY_MIN; u_srcs := []; u_sinks := [] |}.
 
+(* The other request kinds of the client API, as opaque completions (no devices, ports or plugins
+   exist; the reply payload is not modelled, only success / the error):
+   0 Patch, 5 ConfigureDevice, 6 SetPortPriorityInherit -> "Device doesn't exist";
+   2 FetchPluginDescription, 9 FetchPluginState -> "Plugin not loaded";
+   4 FetchCandidatePorts(u), 7 RunDiscovery(u, cached) -> "Universe doesn't exist" unless u exists;
+   1 FetchPluginList, 3 FetchDeviceInfo, 8 FetchUniverseList, 10 SetSourceUID, others -> success. *)
+Definition E_PLUGIN : N := 5.      (* "Plugin not loaded" *)
+Definition opq_err (sv : server) (kd u : N) : option N :=
+  if (kd =? 0) || (kd =? 5) || (kd =? 6) then Some E_DEVICE
+  else if (kd =? 2) || (kd =? 9) then Some E_PLUGIN
+  else if (kd =? 4) || (kd =? 7) then
+    match find_uni (sv_unis sv) u with Some _ => None | None => Some E_UNIVERSE end
+  else None.
+
 (* the service method for one request of client c; returns the reply to send (if any) *)
 Definition handle_req (st : state) (c : N) (r : req) : state * option smsg :=
   let sv := st_sv st in
@@ -357,7 +371,8 @@ Definition handle_req (st : state) (c : N) (r : req) : state * option smsg :=
     | None => (st, Some (SFail rid E_UNIVERSE))
     | Some x => (st, Some (SInfo rid u (u_name x) (u_htp x)))
     end
-  | RPatch rid u => (st, Some (SFail rid E_DEVICE))      (* DeviceManager is empty *)
+  | ROpq rid kd u =>
+    (st, Some (match opq_err sv kd u with None => SOk rid | Some e => SFail rid e end))
   | RAck => (st, None)
   end.
 
@@ -492,7 +507,7 @@ Definition housekeeping (sv : server) : server :=
 Inductive op :=
 | OSend (acked raw : bool) (c u : N) (p : option N) (d : frame)
 | OFetch (c u : N) | OReg (c u : N) (on : bool) | OMode (c u : N) (h : bool)
-| OName (c u : N) (nm : list N) | OInfo (c u : N) | OPatch (c u : N)
+| OName (c u : N) (nm : list N) | OInfo (c u : N) | OOpq (c kd u : N)
 | ODisc (c : N) | OTick (dt : N) | OHK | OSrv (c : N) | OCli (c : N)
 | OJump (dt : N)        (* the clock advances while the loop is busy: no new iteration, wake-up time kept *)
 | OSrvSame (c : N).     (* another descriptor dispatched in the SAME loop iteration as the previous one *)
@@ -524,8 +539,8 @@ Definition step (st : state) (o : op) : state * N * list event :=
   | OInfo c u =>
     let '(st1, ev) := issue st c KInfo (fun rid => RInfo rid u)
                             (EInfo c (st_next st) (Some E_NOTCONN) 0 None false) in (st1, 4, ev)
-  | OPatch c u =>
-    let '(st1, ev) := issue st c KSet (fun rid => RPatch rid u) (EDone c (st_next st) (Some E_NOTCONN)) in (st1, 4, ev)
+  | OOpq c kd u =>
+    let '(st1, ev) := issue st c KSet (fun rid => ROpq rid kd u) (EDone c (st_next st) (Some E_NOTCONN)) in (st1, 4, ev)
   | ODisc c =>
     let k := st_cl st c in
     (set_cl st c {| k_closed := true; k_out := k_out k; k_c2s := k_c2s k; k_s2c := k_s2c k |}, 4, [])
